@@ -179,6 +179,17 @@ SUITES["struct3k"] = {
     "kinds": [1, 2, 3, 4, 5, 6, 12], "depth": {"quick": 3, "thorough": 6}, "maxid": 8,
     "design_depth": {"quick": 2, "thorough": 3}, "sample": {"quick": 300, "thorough": 4000},
 }
+# "warm" objects: before a path is replayed every node id has been used once in another frame, linked, queried and
+# deleted again (stale per-id / per-frame memory, advanced counters, a non-empty undo history)
+SUITES["struct3w"] = {
+    "tla": SUITES["struct3"]["tla"],
+    "cfg": {"N": 3, "T": 3, "dims": [], "scale": [], "use_scale": True, "reg_cust": False, "per_axis_pos": False,
+            "name": "struct3w", "warm": True},
+    "kinds": [1, 2, 3, 4, 5, 6], "depth": {"quick": 3, "thorough": 6}, "maxid": 8,
+    "design_depth": {"quick": 2, "thorough": 4}, "sample": {"thorough": 4000},
+}
+SUITES["seg13w"] = _seg_suite("seg13w", [1, 3], "D_1x3", [1, 1], "S_11", sample={"quick": 300, "thorough": 4000})
+SUITES["seg13w"]["cfg"]["warm"] = True
 # the 4-node seed shapes (division, skip edge, grandchild ...) with node ids starting at 0
 SUITES["struct4n0"] = {
     "tla": SUITES["struct4s"]["tla"],
